@@ -378,6 +378,16 @@ def gen_fault_cases(g, tier):
         base["faults"] = {"eval": {"name": nm, "k": 1}}
         base["variant"] = "start"
         cases.append(base)
+    # ... and the Hessian at the start of a problem WITHOUT constraints (the statistics take another path there)
+    for _ in range(2):
+        base = C.gen_case(g, "convex_qp", {"iteration_limit": 20}, scaling=False)
+        sp_ = C.convex_qp(g, m=0)
+        base["spec"] = sp_.to_json()
+        base["x0"] = g.point_in_box(sp_.lb, sp_.ub)
+        base["y0"] = []
+        base["faults"] = {"eval": {"name": "lag_hess", "k": 1}}
+        base["variant"] = "start"
+        cases.append(base)
     return cases
 
 
